@@ -17,22 +17,24 @@ Definition tp_rr_excs (r : tp_rround) : list (list tp_seg) := snd r.
 Definition tp_roll_start (upd : Z -> Z -> list tp_seg) (prefer : bool) (r : tp_rround) : tp_st :=
   tp_update_region true upd prefer (tp_rr_incs r) (tp_rr_excs r) (tp_rr_now r) (tp_rr_now r + 86400) true tp_empty.
 
-Definition tp_roll_round (upd : Z -> Z -> list tp_seg) (prefer : bool) (r : tp_rround) (s : tp_st) : tp_st :=
+(* [ma]: the form of UpdateRegion (Tp/TpModel.v tp_update_region_ma) *)
+Definition tp_roll_round (ma : bool) (upd : Z -> Z -> list tp_seg) (prefer : bool) (r : tp_rround) (s : tp_st) : tp_st :=
   let s1 := tp_purge (tp_rr_now r - 3600) s in
-  tp_update_region true upd prefer (tp_rr_incs r) (tp_rr_excs r) (tp_ve_num s1) (tp_rr_now r + 86400) false s1.
+  tp_update_region_ma true ma upd prefer (tp_rr_incs r) (tp_rr_excs r) (tp_ve_num s1) (tp_rr_now r + 86400) false s1.
 
-(* UpdateRegion returns early ("if (end < GetValidEnd()) return") when a segment reaching past now + 24 h has
-   moved valid_end there; the round then only purges *)
+(* UpdateRegion has no stretch of the period's own to compute ("end < GetValidEnd()") when a segment reaching past
+   now + 24 h has moved valid_end there; the round then only purges (ma = false: early return) or purges and merges the
+   referenced periods again below valid_end (ma = true) *)
 Definition tp_roll_effective (r : tp_rround) (s : tp_st) : bool := negb (tp_rr_now r + 86400 <? tp_ve_num s).
 
 (* the state and the round whose view of the referenced periods was merged last *)
 Definition tp_roll_acc := (tp_st * tp_rround)%type.
 
-Definition tp_roll_step (upd : Z -> Z -> list tp_seg) (prefer : bool) (acc : tp_roll_acc) (r : tp_rround) : tp_roll_acc :=
-  (tp_roll_round upd prefer r (fst acc), if tp_roll_effective r (fst acc) then r else snd acc).
+Definition tp_roll_step (ma : bool) (upd : Z -> Z -> list tp_seg) (prefer : bool) (acc : tp_roll_acc) (r : tp_rround) : tp_roll_acc :=
+  (tp_roll_round ma upd prefer r (fst acc), if ma || tp_roll_effective r (fst acc) then r else snd acc).
 
-Definition tp_roll (upd : Z -> Z -> list tp_seg) (prefer : bool) (r0 : tp_rround) (rs : list tp_rround) : tp_roll_acc :=
-  fold_left (tp_roll_step upd prefer) rs (tp_roll_start upd prefer r0, r0).
+Definition tp_roll (ma : bool) (upd : Z -> Z -> list tp_seg) (prefer : bool) (r0 : tp_rround) (rs : list tp_rround) : tp_roll_acc :=
+  fold_left (tp_roll_step ma upd prefer) rs (tp_roll_start upd prefer r0, r0).
 
 (* ---------------- what is asked of the surroundings ---------------- *)
 
